@@ -652,6 +652,7 @@ func (db *DB) tableRangeCompaction(level int, umin, umax []byte) error {
 		}
 	} else {
 		// Retry until nothing to compact.
+		verifRangeEv(db.s, 0, 0, umin, umax, nil)
 		for {
 			compacted := false
 
@@ -665,9 +666,11 @@ func (db *DB) tableRangeCompaction(level int, umin, umax []byte) error {
 				}
 			}
 			v.release()
+			verifRangeEv(db.s, 1, m, nil, nil, nil)
 
 			for level := 0; level < m; level++ {
 				if c := db.s.getCompactionRange(level, umin, umax, false); c != nil {
+					verifRangeEv(db.s, 2, level, nil, nil, c)
 					db.tableCompaction(c, true)
 					compacted = true
 				}
@@ -677,6 +680,7 @@ func (db *DB) tableRangeCompaction(level int, umin, umax []byte) error {
 				break
 			}
 		}
+		verifRangeEv(db.s, 3, 0, nil, nil, nil)
 	}
 
 	return nil
